@@ -3,8 +3,8 @@
 
     c10 <op> <mode> <cb> <cw> <db> <pw> <pb> <sw> <sb> <operands…>
 
-  mode  F = bare filter (`Filter.build`), O = NewRedisOutput of a plain link (`buildOutputPlain`),
-        B = NewRedisOutput of a bisync link (`buildOutput`)
+  mode  F = bare filter (`Filter.build`); O = `buildOutput` as a plain link uses it (key rules of
+        outFilter, then of bisyncNsFilter); B = `buildOutput` as a bisync link uses it (outFilter alone)
   cb cw pw pb : list of byte strings  "." | hex{,hex}      ("-" = empty string)
   db          : list of ints          "." | int{,int}
   sw sb       : slot entries          "." | entry{;entry}  entry = "e" | nat{_nat}
@@ -20,7 +20,7 @@
                                "-" | a:b,… , startDbId; each command with its END offset):
                                S<db>#<off> | F@<db>#<off>:<name,args…> | E (parser error, stop); "." if nothing
     rdb <db> <hexkey>       →  keep | drop        (rdbReplay / bisyncRdbReplay)
-    bparse <cmd> …          →  units of the bisync parser (standalone): U:<cmd>|<cmd>… (T: = source
+    bparse / bparsec <cmd> … →  units of the bisync parser (standalone / cluster target): U:<cmd>|<cmd>… (T: = source
                                transaction), then E on a parser error, eof-in-txn; "." if nothing
     fix <cluster> <tdb> <resume>
                             →  ok <7 cfg fields after SyncConfig.fix> | err
@@ -62,8 +62,7 @@ def cfg? (cb cw db pw pb sw sb : String) : Option FilterCfg := do
 def mk? (mode cb cw db pw pb sw sb : String) : Option KeyFilter := do
   let c ← cfg? cb cw db pw pb sw sb
   if mode == "F" then pure (build c)
-  else if mode == "O" then pure (buildOutputPlain c)
-  else if mode == "B" then pure (buildOutput c)
+  else if mode == "O" || mode == "B" then pure (buildOutput c)
   else none
 
 def b01 (b : Bool) : String := if b then "1" else "0"
@@ -121,6 +120,22 @@ def bisyncItems? : List String → Option (List BisyncUnit.Cmd)
     | some (name :: argv), some l => some (⟨name, argv⟩ :: l)
     | _, _ => none
 
+def bparseRun (f : KeyFilter) (mode : BisyncUnit.SlotMode) (cmds : List String) : String :=
+  match bisyncItems? cmds with
+  | none => "bad-op"
+  | some cs =>
+    let cfg : Bisync.PCfg := { filter := f, mode := mode,
+                               resolver := BisyncUnit.resolverWith (fun _ _ => .err) }
+    let (ems, _, err) := Bisync.parse cfg {} (Bisync.items 0 cs) []
+    let us := ems.map (fun e =>
+      (if e.sourceTxn then "T:" else "U:") ++ "|".intercalate (e.unit.cmds.map bisyncCmdStr))
+    let tail := match err with
+      | none => []
+      | some .eofInTxn => ["eof-in-txn"]
+      | some _ => ["E"]
+    let out := us ++ tail
+    if out.isEmpty then "." else " ".intercalate out
+
 def handle : List String → Option (List String)
   | "c10" :: "fix" :: _mode :: cb :: cw :: db :: pw :: pb :: sw :: sb :: [cluster, tdb, resume] =>
     match cfg? cb cw db pw pb sw sb, int? tdb with
@@ -136,7 +151,9 @@ def handle : List String → Option (List String)
       match op, rest with
       | "key", [h] =>
         match Hex.decode h with
-        | some k => some [s!"fk={b01 (f.filterKey k)} fs={b01 (f.filterSlot k)} slot={Slot.keyToSlot k}"]
+        | some k =>
+          let fk := if mode == "O" then f.filterKey k || nsFilter.filterKey k else f.filterKey k
+          some [s!"fk={b01 fk} fs={b01 (f.filterSlot k)} slot={Slot.keyToSlot k}"]
         | none => some ["bad-op"]
       | "cmd", [h] =>
         match Hex.decode h with
@@ -152,7 +169,7 @@ def handle : List String → Option (List String)
           let idx := match keyIndexes c args with
             | none => "none"
             | some l => natListStr l
-          match f.filterCmdKey c args with
+          match (if mode == "O" then plainFilterCmdKey f c args else f.filterCmdKey c args) with
           | none => some [s!"idx={idx} reject"]
           | some out => some [s!"idx={idx} pass {hexListStr out}"]
         | _, _ => some ["bad-op"]
@@ -173,21 +190,8 @@ def handle : List String → Option (List String)
         match int? d, Hex.decode h with
         | some d, some k => some [if rdbKeep f d k then "keep" else "drop"]
         | _, _ => some ["bad-op"]
-      | "bparse", cmds =>
-        match bisyncItems? cmds with
-        | none => some ["bad-op"]
-        | some cs =>
-          let cfg : Bisync.PCfg := { filter := f, mode := BisyncUnit.standaloneMode,
-                                     resolver := BisyncUnit.resolverWith (fun _ _ => .err) }
-          let (ems, _, err) := Bisync.parse cfg {} (Bisync.items 0 cs) []
-          let us := ems.map (fun e =>
-            (if e.sourceTxn then "T:" else "U:") ++ "|".intercalate (e.unit.cmds.map bisyncCmdStr))
-          let tail := match err with
-            | none => []
-            | some .eofInTxn => ["eof-in-txn"]
-            | some _ => ["E"]
-          let out := us ++ tail
-          some [if out.isEmpty then "." else " ".intercalate out]
+      | "bparse", cmds => some [bparseRun f BisyncUnit.standaloneMode cmds]
+      | "bparsec", cmds => some [bparseRun f BisyncUnit.clusterMode cmds]
       | _, _ => some ["bad-op"]
   | _ => none
 
